@@ -38,7 +38,7 @@ LEAN_KEYWORDS = {'from', 'with', 'at', 'do', 'end', 'if', 'then', 'else', 'let',
 
 INT_TYPES = {'unsigned char': ('u', 8), 'unsigned short': ('u', 16), 'unsigned int': ('u', 32), 'unsigned long': ('u', 64),
              'unsigned long long': ('u', 64), 'signed char': ('s', 8), 'char': ('s', 8), 'short': ('s', 16), 'int': ('s', 32),
-             'long': ('s', 64), 'long long': ('s', 64), '_Bool': ('b', 1)}
+             'long': ('s', 64), 'long long': ('s', 64), '_Bool': ('b', 1), 'bool': ('b', 1)}
 
 CLOCKS = {'lltd_monotonic_milliseconds': 'env.nowMs', 'lltd_monotonic_seconds': 'env.nowS'}
 
@@ -56,6 +56,7 @@ class Unsupported(Exception):
 
 
 TYPEDEFS = {}      # typedef name -> underlying type (filled from the AST)
+CHAR_UNSIGNED = False
 
 
 def lname(n):
@@ -71,6 +72,8 @@ def qual(t):
 def kind_of(t):
     """('u',bits) | ('s',bits) | ('b',1) | ('ptr', pointee) | ('struct', name) | ('arr', elemkind, n) | ('void',)"""
     q = qual(t) if isinstance(t, dict) else t
+    if q == 'char':
+        return ('u', 8) if CHAR_UNSIGNED else ('s', 8)      # plain char: its signedness is the target's choice
     if q in INT_TYPES:
         return INT_TYPES[q]
     m = re.match(r'^(.*)\[(\d+)\]$', q)
@@ -1030,7 +1033,7 @@ class Fn:
                     self.add_field(lname(nm), lname(pointee), None)
                     if 'const' in p['type']['qualType'].split('*')[0]:
                         self.const_params.add(nm)
-                elif pk[0] == 'u' and pk[1] == 8:
+                elif pk[0] == 'u' and pk[1] == 8 and re.sub(r'\bconst\b', '', kd[1]).strip() != 'char':
                     # `uint8_t *` / `const uint8_t *`: an array of bytes passed by reference - by VALUE here, written back by the caller
                     self.arr_params[nm] = pk
                     self.add_field(lname(nm), 'List Nat', None)
@@ -1180,16 +1183,41 @@ class Translator:
         return '\n'.join(out)
 
 
-def translate(repo, verif):
+# the data models the translation must not depend on: the host (LP64, signed char), an ABI with unsigned plain char (ARM, PowerPC,
+# Xtensa / ESP32, RISC-V), ILP32 (i386, 32-bit embedded Linux), ARM EABI, AArch64
+TARGETS = [('x86-64 (host)', []), ('unsigned plain char', ['-funsigned-char']), ('ILP32 (i386)', ['-m32', '-ffreestanding']),
+           ('ARM EABI', ['--target=armv7-none-eabi', '-ffreestanding']), ('AArch64', ['--target=aarch64-linux-gnu', '-ffreestanding'])]
+
+
+def translate_for(repo, verif, flags):
+    global TYPEDEFS, CHAR_UNSIGNED
+    TYPEDEFS = {}
+    m = subprocess.run(['clang-14', '-dM', '-E', '-x', 'c', '/dev/null'] + flags, stdout=subprocess.PIPE, stderr=subprocess.PIPE, text=True)
+    CHAR_UNSIGNED = '__CHAR_UNSIGNED__' in m.stdout
     core = os.path.join(repo, 'lltdResponder')
     src = os.path.join(core, 'lltdAutomata.c')
     cmd = ['clang-14', '-std=gnu11', '-D_GNU_SOURCE', '-DD3VI1_LLTDRESPONDER_VERIF', '-I' + core, '-I' + os.path.join(verif, 'harness'),
-           '-w', '-fsyntax-only', '-Xclang', '-ast-dump=json', src]
+           '-w', '-fsyntax-only', '-Xclang', '-ast-dump=json'] + flags + [src]
     r = subprocess.run(cmd, stdout=subprocess.PIPE, stderr=subprocess.PIPE, text=True)
     if r.returncode != 0:
-        raise Unsupported('clang cannot parse lltdAutomata.c:\n' + r.stderr[-2000:])
+        raise Unsupported('clang cannot parse lltdAutomata.c (%s):\n' % ' '.join(flags) + r.stderr[-2000:])
     ast = json.loads(r.stdout)
     return Translator(ast, FUNCTIONS).run()
+
+
+def translate(repo, verif):
+    """the translation for the host; it must be THE SAME for every data model in TARGETS - a function whose meaning depends on the
+    signedness of plain char, on the width of int / long / size_t / pointers or on a target macro is outside the subset"""
+    host = translate_for(repo, verif, TARGETS[0][1])
+    for name, flags in TARGETS[1:]:
+        other = translate_for(repo, verif, flags)
+        if other != host:
+            a, b = host.split('\n'), other.split('\n')
+            k = next((i for i in range(min(len(a), len(b))) if a[i] != b[i]), min(len(a), len(b)))
+            fn = next((l for l in reversed(a[:k + 1]) if l.startswith(('def ', 'structure '))), '?')
+            raise Unsupported('the meaning of the translated code depends on the target: for "%s" the translation differs from the host\'s in `%s`:\n  host : %s\n  %s: %s'
+                              % (name, fn.split('(')[0].strip(), a[k].strip() if k < len(a) else '<end>', name, b[k].strip() if k < len(b) else '<end>'))
+    return host
 
 
 if __name__ == '__main__':
